@@ -9,3 +9,4 @@ open SSVerif.Lattice
 #print axioms C11_first_best_in_lattice
 #print axioms C11_cache_same_object
 #print axioms C11_first_best_decided
+#print axioms C11_cache_new_utterance
